@@ -446,6 +446,32 @@ func Seven(a, b map[int]string) bool {
 }
 `
 
+// -autoname across packages: auto1 has a conflict that -autoname resolves by renaming the second call; auto2 (later in
+// path order) calls the same written name on the types of auto1's renamed call: what -autoname does to a package must
+// not depend on the other packages of the invocation
+const auto1 = `package auto1
+
+func A(a, b []int) bool { return deriveEqual(a, b) }
+
+func B(a, b []string) bool { return deriveEqual(a, b) } // renamed by -autoname
+`
+
+const auto2 = `package auto2
+
+func C(a, b []string) bool { return deriveEqual(a, b) } // the only deriveEqual here: keeps its name
+
+func D(a, b map[string]int) int { return deriveCompare(a, b) }
+`
+
+const auto3 = `package auto3
+
+import "strings"
+
+func E(a, b *strings.Builder) bool { return deriveEqual(a, b) }
+
+func F(a, b []string) bool { return deriveEqual(a, b) } // renamed by -autoname
+`
+
 const bad = `package bad
 
 func Eq(a, b chan int) bool { return deriveEqual(a, b) }
@@ -641,6 +667,9 @@ func main() {
 	write("testonly2/testonly2_test.go", testonly2Test)
 	add("minmax", "named-ordered-element-untyped-default", "ok", minmax)
 	add("chain", "nested-derive-calls-five-to-seven-deep", "ok", chain)
+	add("auto1", "autoname-group", "any", auto1)
+	add("auto2", "autoname-group", "ok", auto2)
+	add("auto3", "autoname-group", "any", auto3)
 	add("bad", "rejected", "fail", bad)
 	n := 6
 	if *thorough {
